@@ -159,6 +159,15 @@ func evalC03Sub(c c03Sub, o *Obs) error {
 	}
 	if c.AllSingles {
 		o.Class("C03:" + c.Codec + "-all-singles")
+		// multi-byte characters that Unicode case mapping sends to ASCII letters, and look-alikes
+		for pos := start; pos < len(valid); pos++ {
+			for _, r := range []string{"\u212a", "\u017f", "\u0130", "\u0131", "\uff51", "\u00df"} {
+				s := valid[:pos] + r + valid[pos+1:]
+				if c03ImplAccepts(c.Codec, s) || (c.Codec == "cashaddr" && c03AddrAccepts(c.Prefix, s)) {
+					return fmt.Errorf("%s decoder accepts %q: the character at payload position %d of valid %q replaced by U+%04X", c.Codec, s, pos-start, valid, []rune(r)[0])
+				}
+			}
+		}
 		for pos := start; pos < len(valid); pos++ {
 			orig := valid[pos]
 			bb := []byte(valid)
